@@ -109,6 +109,9 @@ class SmallBufferAllocator {
     auto& globals = getSmallBufferGlobals<kChunkSize>();
     auto& lock = globals.backingStoreLock;
     while (!lock.compare_exchange_weak(allocId, 1, std::memory_order_acquire)) {
+      // A failed compare_exchange stores the observed value in allocId.  Reset it, otherwise the next
+      // attempt "acquires" the lock while its holder (a thread growing backingStore) still has it.
+      allocId = 0;
     }
     size_t bytes = kMallocBytes * globals.backingStore.size();
     lock.store(0, std::memory_order_release);
